@@ -3043,7 +3043,32 @@ func contractHistory(c *Ctx, id int) {
 			return
 		}
 	}
+	midSporks := !withHtlc && (c.Args["midspork"] == "1" || (c.Args["midspork"] == "" && id%6 == 3))
 	for s := 0; s < steps && !r.failed && int(n.Height()-start) < budget; s++ {
+		if midSporks && s == steps/2 {
+			// a lock holds whatever is activated while it is open: the three sporks are activated in the middle of a history
+			// that began without them, then locks are run to their edges (genEdge: maturity -1 / 0 / +1 by the entitled party)
+			for _, l := range r.locks {
+				if l.paidAt == 0 {
+					c.Hit("lock-open-at-mid-history-spork-activation-" + l.kind)
+				}
+			}
+			for i, sp := range []*types.ImplementedSpork{types.AcceleratorSpork, types.BridgeAndLiquiditySpork, types.HtlcSpork} {
+				if err := n.ActivateSpork(sp, fmt.Sprintf("mid-spork-%d", i)); err != nil {
+					c.Hit("mid-history-spork-activation-not-possible") // the spork address ran out of plasma (its fusion was cancelled by the history)
+					break
+				}
+				c.Hit("history-spork-activated-while-funds-are-locked")
+				if r.failed {
+					return
+				}
+			}
+			for i := 0; i < 4; i++ {
+				if !genEdge() {
+					return
+				}
+			}
+		}
 		x := c.R.Intn(100)
 		rewardOdds := 40
 		if shortEpochs {
